@@ -36,6 +36,7 @@ import (
 	sci "0chain.net/chaincore/smartcontractinterface"
 	"0chain.net/chaincore/transaction"
 	"0chain.net/core/encryption"
+	"0chain.net/smartcontract/dbs/event"
 	"0chain.net/smartcontract/minersc"
 	"0chain.net/smartcontract/partitions"
 	"0chain.net/smartcontract/stakepool"
@@ -52,26 +53,72 @@ import (
 
 // ---- the value stored in the trie in part 1 ---------------------------------------------------------
 
-type cval struct{ N int }
+// cval: "v<N>" followed by Pad filler bytes (a value above util.MPTMaxAllowableNodeSize is refused by the trie)
+type cval struct {
+	N   int
+	Pad int
+}
 
-func (c *cval) MarshalMsg(b []byte) ([]byte, error) { return append(b, []byte("v"+strconv.Itoa(c.N))...), nil }
-func (c *cval) UnmarshalMsg(b []byte) ([]byte, error) {
-	s := string(b)
+const oversize = 1<<20 + 1
+
+func encodeVal(b []byte, n, pad int) []byte {
+	b = append(b, []byte("v"+strconv.Itoa(n))...)
+	if pad > 0 {
+		b = append(b, make([]byte, pad)...)
+	}
+	return b
+}
+
+func decodeVal(b []byte) (int, int, error) {
+	i := 0
+	for i < len(b) && b[i] != 0 {
+		i++
+	}
+	s := string(b[:i])
 	if !strings.HasPrefix(s, "v") {
-		return nil, fmt.Errorf("cval: bad bytes %q", s)
+		return 0, 0, fmt.Errorf("cval: bad bytes %q", s)
 	}
 	n, err := strconv.Atoi(s[1:])
-	c.N = n
+	return n, len(b) - i, err
+}
+
+func (c *cval) MarshalMsg(b []byte) ([]byte, error) { return encodeVal(b, c.N, c.Pad), nil }
+func (c *cval) UnmarshalMsg(b []byte) ([]byte, error) {
+	var err error
+	c.N, c.Pad, err = decodeVal(b)
 	return nil, err
 }
-func (c *cval) Clone() statecache.Value { return &cval{N: c.N} }
+func (c *cval) Clone() statecache.Value { return &cval{N: c.N, Pad: c.Pad} }
 func (c *cval) CopyFrom(v interface{}) bool {
 	o, ok := v.(*cval)
 	if ok {
-		c.N = o.N
+		c.N, c.Pad = o.N, o.Pad
 	}
 	return ok
 }
+
+// cvalX: a read target that is neither cacheable nor copyable (GetTrieNode cannot use a cache hit and caches nothing)
+type cvalX struct{ N int }
+
+func (c *cvalX) MarshalMsg(b []byte) ([]byte, error) { return encodeVal(b, c.N, 0), nil }
+func (c *cvalX) UnmarshalMsg(b []byte) ([]byte, error) {
+	var err error
+	c.N, _, err = decodeVal(b)
+	return nil, err
+}
+
+// cvalY: a read target whose CopyFrom refuses what the cache holds; what GetTrieNode then decodes from the trie is
+// cached as a plain cval (Clone), so the caches only ever hold *cval
+type cvalY struct{ N int }
+
+func (c *cvalY) MarshalMsg(b []byte) ([]byte, error) { return encodeVal(b, c.N, 0), nil }
+func (c *cvalY) UnmarshalMsg(b []byte) ([]byte, error) {
+	var err error
+	c.N, _, err = decodeVal(b)
+	return nil, err
+}
+func (c *cvalY) Clone() statecache.Value     { return &cval{N: c.N} }
+func (c *cvalY) CopyFrom(v interface{}) bool { return false }
 
 func keyName(k int) string { return "c07key" + strconv.Itoa(k) }
 func blkName(h int) string { return "c07blk" + strconv.Itoa(h) }
@@ -103,10 +150,12 @@ type world struct {
 	ndb    util.NodeDB
 	blocks map[int]*blk
 	cur    *exec
+	// blocks whose ComputeState was interrupted (cblock), waiting for cretry
+	pending map[int]*block.Block
 }
 
 func newWorld() *world {
-	w := &world{c: engine.Setup(), sc: statecache.NewStateCache(), ndb: util.NewMemoryNodeDB(), blocks: map[int]*blk{}}
+	w := &world{c: engine.Setup(), sc: statecache.NewStateCache(), ndb: util.NewMemoryNodeDB(), blocks: map[int]*blk{}, pending: map[int]*block.Block{}}
 	gb := block.NewBlock("", 0)
 	gb.Hash = blkName(0)
 	mpt := util.NewMerklePatriciaTrie(w.ndb, 0, nil, statecache.NewEmpty())
@@ -127,7 +176,33 @@ func readVal(sctx *cstate.StateContext, k int) string {
 	var v cval
 	switch err := sctx.GetTrieNode(keyName(k), &v); err {
 	case nil:
+		if v.Pad > 0 {
+			return strconv.Itoa(v.N) + "-oversized"
+		}
 		return strconv.Itoa(v.N)
+	case util.ErrValueNotPresent:
+		return "absent"
+	default:
+		return "error:" + err.Error()
+	}
+}
+
+func readValAs(sctx *cstate.StateContext, k int, how string) string {
+	var err error
+	n := 0
+	switch how {
+	case "x":
+		var v cvalX
+		err = sctx.GetTrieNode(keyName(k), &v)
+		n = v.N
+	default:
+		var v cvalY
+		err = sctx.GetTrieNode(keyName(k), &v)
+		n = v.N
+	}
+	switch err {
+	case nil:
+		return strconv.Itoa(n)
 	case util.ErrValueNotPresent:
 		return "absent"
 	default:
@@ -169,7 +244,8 @@ func (w *world) exec(f []string) string {
 		}
 		args = append(args, n)
 	}
-	need := map[string]int{"begin": 2, "tx": 0, "get": 1, "probe": 1, "ins": 2, "del": 1, "commit": 0, "discard": 0, "bcommit": 0, "babort": 0, "query": 2}
+	need := map[string]int{"begin": 2, "tx": 0, "get": 1, "probe": 1, "ins": 2, "del": 1, "commit": 0, "discard": 0, "bcommit": 0, "babort": 0, "query": 2,
+		"insbig": 2, "getx": 1, "gety": 1}
 	if n, ok := need[f[0]]; !ok || n != len(args) {
 		return "bad-op"
 	}
@@ -244,7 +320,22 @@ func (w *world) exec(f []string) string {
 		if !isC {
 			return "hit-other"
 		}
+		if c.Pad > 0 {
+			return "hit " + strconv.Itoa(c.N) + " oversized"
+		}
 		return "hit " + strconv.Itoa(c.N)
+	case "getx", "gety":
+		got := readValAs(t.sctx, args[0], f[0][3:])
+		return showRead(got, w.refRead(e.b, t.mpt, args[0]))
+	case "insbig":
+		_, err := t.sctx.InsertTrieNode(keyName(args[0]), &cval{N: args[1], Pad: oversize})
+		if err == nil {
+			return "error: the trie stored an oversized value"
+		}
+		if strings.Contains(err.Error(), "exceeds maximum permissible size") {
+			return "toobig"
+		}
+		return "error:" + err.Error()
 	case "ins":
 		if _, err := t.sctx.InsertTrieNode(keyName(args[0]), &cval{N: args[1]}); err != nil {
 			return "error:" + err.Error()
@@ -274,6 +365,241 @@ func (w *world) exec(f []string) string {
 }
 
 
+
+// ---- part 1c: whole blocks through the real (*Block).ComputeState ------------------------------------------
+//
+// `cblock <h> <p> <-|c<i>|f<i>> <script>` builds block h on p whose transactions are scripts
+// (`i:k:v` insert, `d:k` delete, `g:k` / `x:k` / `y:k` reads, `b:k:v` an oversized insert whose error the
+// "contract" tolerates; `,` between primitives, `;` between transactions) and runs block.ComputeState with a
+// block.Chainer whose UpdateState does what chain.updateState does around the caches. `c<i>` / `f<i>` make
+// UpdateState return context.Canceled / an error at transaction i (the block stays uncomputed); `cretry <h>` runs
+// ComputeState again on the same block object.
+
+type scriptChainer struct {
+	w       *world
+	sc      *statecache.StateCache
+	stopAt  string
+	stopErr error
+}
+
+func (c *scriptChainer) GetPreviousBlock(ctx context.Context, b *block.Block) *block.Block { return b.PrevBlock }
+func (c *scriptChainer) GetBlockStateChange(b *block.Block) error                           { return nil }
+func (c *scriptChainer) ComputeState(ctx context.Context, pb *block.Block, waitC ...chan struct{}) error {
+	return pb.ComputeState(ctx, c, waitC...)
+}
+func (c *scriptChainer) GetStateDB() util.NodeDB                { return c.w.ndb }
+func (c *scriptChainer) GetEventDb() *event.EventDb             { return nil }
+func (c *scriptChainer) GetStateCache() *statecache.StateCache { return c.sc }
+
+func (c *scriptChainer) UpdateState(ctx context.Context, b *block.Block, bState util.MerklePatriciaTrieI,
+	txn *transaction.Transaction, bsc *statecache.BlockCache, waitC ...chan struct{}) ([]event.Event, error) {
+	if txn.Hash == c.stopAt {
+		return nil, c.stopErr
+	}
+	tc := statecache.NewTransactionCache(bsc)
+	tmpt := chain.CreateTxnMPT(bState, tc)
+	sctx := c.w.sctxOn(b, tmpt)
+	for _, prim := range strings.Split(txn.TransactionData, ",") {
+		x := strings.Split(prim, ":")
+		k, _ := strconv.Atoi(x[1])
+		switch x[0] {
+		case "i":
+			v, _ := strconv.Atoi(x[2])
+			if _, err := sctx.InsertTrieNode(keyName(k), &cval{N: v}); err != nil {
+				return nil, err
+			}
+		case "b":
+			v, _ := strconv.Atoi(x[2])
+			_, _ = sctx.InsertTrieNode(keyName(k), &cval{N: v, Pad: oversize}) // the error is tolerated
+		case "d":
+			_, _ = sctx.DeleteTrieNode(keyName(k))
+		case "g":
+			readVal(sctx, k)
+		case "x", "y":
+			readValAs(sctx, k, x[0])
+		}
+	}
+	if err := bState.MergeMPTChanges(tmpt); err != nil {
+		return nil, err
+	}
+	tc.Commit()
+	return nil, nil
+}
+
+func validScript(s string) bool {
+	for _, t := range strings.Split(s, ";") {
+		for _, p := range strings.Split(t, ",") {
+			x := strings.Split(p, ":")
+			want := map[string]int{"i": 3, "b": 3, "d": 2, "g": 2, "x": 2, "y": 2}[x[0]]
+			if want == 0 || len(x) != want {
+				return false
+			}
+			for _, a := range x[1:] {
+				if _, ok := num(a); !ok {
+					return false
+				}
+			}
+		}
+	}
+	return true
+}
+
+func (w *world) computeBlock(b *block.Block, stopAt int, stopErr error) string {
+	c := &scriptChainer{w: w, sc: w.sc}
+	if stopAt >= 0 && stopAt < len(b.Txns) {
+		c.stopAt, c.stopErr = b.Txns[stopAt].Hash, stopErr
+	}
+	h, _ := strconv.Atoi(strings.TrimPrefix(b.Hash, "c07blk"))
+	switch err := b.ComputeState(context.Background(), c); {
+	case err == nil:
+		if !b.IsStateComputed() {
+			return "error: ComputeState returned nil, state not computed"
+		}
+		delete(w.pending, h)
+		w.blocks[h] = &blk{b: b, state: b.ClientState}
+		return "ok"
+	case err == context.Canceled:
+		w.pending[h] = b
+		return "cancelled"
+	default:
+		w.pending[h] = b
+		return "failed"
+	}
+}
+
+func (w *world) cblock(f []string) string {
+	if len(f) != 5 {
+		return "bad-op"
+	}
+	h, ok1 := num(f[1])
+	p, ok2 := num(f[2])
+	stopAt, stopErr := -1, error(nil)
+	okS := f[3] == "-"
+	if len(f[3]) > 1 && (f[3][0] == 'c' || f[3][0] == 'f') {
+		if n, ok := num(f[3][1:]); ok {
+			stopAt, okS = n, true
+			stopErr = context.Canceled
+			if f[3][0] == 'f' {
+				stopErr = errors.New("c07: injected transaction failure")
+			}
+		}
+	}
+	if !ok1 || !ok2 || !okS || !validScript(f[4]) {
+		return "bad-op"
+	}
+	pb := w.blocks[p]
+	if w.cur != nil || pb == nil || w.blocks[h] != nil || w.pending[h] != nil {
+		return "bad"
+	}
+	b := block.NewBlock("", pb.b.Round+1)
+	b.Hash = blkName(h)
+	b.PrevHash = pb.b.Hash
+	b.PrevBlock = pb.b
+	for i, script := range strings.Split(f[4], ";") {
+		t := &transaction.Transaction{}
+		t.Hash = encryption.Hash(fmt.Sprintf("c07-txn-%d-%d", h, i))
+		t.ClientID = encryption.Hash("c07-client")
+		t.TransactionData = script
+		b.Txns = append(b.Txns, t)
+	}
+	// the state hash an honest generator announces: the transactions on a scratch state with a scratch cache
+	scratch := &scriptChainer{w: w, sc: statecache.NewStateCache()}
+	st := block.CreateStateWithPreviousBlock(pb.b, w.ndb, b.Round)
+	bsc := statecache.NewBlockCache(scratch.sc, statecache.Block{Round: b.Round, Hash: b.Hash, PrevHash: b.PrevHash})
+	for _, t := range b.Txns {
+		if _, err := scratch.UpdateState(context.Background(), b, st, t, bsc); err != nil {
+			return "error:" + err.Error()
+		}
+	}
+	b.ClientStateHash = st.GetRoot()
+	return w.computeBlock(b, stopAt, stopErr)
+}
+
+func (w *world) cretry(f []string) string {
+	if len(f) != 2 {
+		return "bad-op"
+	}
+	h, ok := num(f[1])
+	if !ok {
+		return "bad-op"
+	}
+	b := w.pending[h]
+	if b == nil || w.cur != nil {
+		return "bad"
+	}
+	return w.computeBlock(b, -1, nil)
+}
+
+// scenario "partitions-oversize": a real Partitions whose head grows over the node size limit — Save fails — then
+// the head read through the transaction cache, and by the next transaction through the block cache, against the trie
+func scenarioPartitionsOversize(seed int64) string {
+	w := newWorld()
+	w.exec([]string{"begin", "1", "0"})
+	w.exec([]string{"tx"})
+	e := w.cur
+	name := "c07parts" + strconv.FormatInt(seed%7, 10)
+	count := func(sctx *cstate.StateContext) int {
+		p, err := partitions.GetPartitions(sctx, name)
+		if err != nil {
+			return -1
+		}
+		n, _ := p.Size(sctx)
+		return n
+	}
+	p, err := partitions.CreateIfNotExists(e.t.sctx, name, 10)
+	if err != nil {
+		return "fail create " + err.Error()
+	}
+	if err := p.Add(e.t.sctx, &pitem{ID: "small", Pad: int(seed % 50)}); err != nil {
+		return "fail add " + err.Error()
+	}
+	if err := p.Save(e.t.sctx); err != nil {
+		return "fail save " + err.Error()
+	}
+	if err := p.Add(e.t.sctx, &pitem{ID: "huge", Pad: oversize}); err != nil {
+		return "fail add-huge " + err.Error()
+	}
+	if err := p.Save(e.t.sctx); err == nil {
+		return "fail oversized-save-accepted"
+	}
+	cold := func() int { return count(w.sctxOn(w.cur.b, util.CloneMPT(w.cur.t.mpt))) }
+	if warm, c := count(e.t.sctx), cold(); warm != c {
+		return fmt.Sprintf("fail same-txn warm %d cold %d", warm, c)
+	}
+	w.exec([]string{"commit"}) // the caller tolerated the error
+	w.exec([]string{"tx"})
+	if warm, c := count(w.cur.t.sctx), cold(); warm != c {
+		return fmt.Sprintf("fail next-txn warm %d cold %d", warm, c)
+	}
+	w.exec([]string{"commit"})
+	w.exec([]string{"bcommit"})
+	w.exec([]string{"begin", "2", "1"})
+	w.exec([]string{"tx"})
+	if warm, c := count(w.cur.t.sctx), cold(); warm != c {
+		return fmt.Sprintf("fail next-block warm %d cold %d", warm, c)
+	}
+	return "ok"
+}
+
+type pitem struct {
+	ID  string
+	Pad int
+}
+
+func (p *pitem) GetID() string { return p.ID }
+func (p *pitem) MarshalMsg(o []byte) ([]byte, error) {
+	return append(append(o, []byte(p.ID+"|")...), make([]byte, p.Pad)...), nil
+}
+func (p *pitem) UnmarshalMsg(b []byte) ([]byte, error) {
+	i := strings.IndexByte(string(b), '|')
+	if i < 0 {
+		return nil, errors.New("pitem: bad bytes")
+	}
+	p.ID, p.Pad = string(b[:i]), len(b)-i-1
+	return nil, nil
+}
+func (p *pitem) Msgsize() int { return len(p.ID) + 1 + p.Pad }
+
 // ---- part 1b: the same caches driven by the real Chain.UpdateState ----------------------------------------
 //
 // A test contract registered in smartcontract.ContractMap writes / deletes / reads one cacheable node per call and
@@ -296,6 +622,12 @@ func (c07Contract) Execute(t *transaction.Transaction, fn string, input []byte, 
 		return "", err
 	}
 	switch fn {
+	case "writebig":
+		// an insert the trie refuses; this contract tolerates the error and reports success
+		if _, err := b.InsertTrieNode(in.Key, &cval{N: in.V, Pad: oversize}); err == nil {
+			return "", errors.New("c07: oversized value stored")
+		}
+		return "tolerated", nil
 	case "write", "writefail":
 		if _, err := b.InsertTrieNode(in.Key, &cval{N: in.V}); err != nil {
 			return "", err
@@ -313,6 +645,9 @@ func (c07Contract) Execute(t *transaction.Transaction, fn string, input []byte, 
 		var v cval
 		switch err := b.GetTrieNode(in.Key, &v); err {
 		case nil:
+			if v.Pad > 0 {
+				return strconv.Itoa(v.N) + "-oversized", nil
+			}
 			return strconv.Itoa(v.N), nil
 		case util.ErrValueNotPresent:
 			return "absent", nil
@@ -329,7 +664,7 @@ func (c07Contract) GetExecutionStats() map[string]interface{} { return map[strin
 func (c07Contract) GetName() string                           { return "c07verif" }
 func (c07Contract) GetAddress() string                        { return c07Address }
 func (c07Contract) GetCostTable(cstate.StateContextI) (map[string]int, error) {
-	return map[string]int{"write": 1, "writefail": 1, "del": 1, "read": 1}, nil
+	return map[string]int{"write": 1, "writebig": 1, "writefail": 1, "del": 1, "read": 1}, nil
 }
 
 var _ sci.SmartContractInterface = c07Contract{}
@@ -402,7 +737,7 @@ func (e *eworld) exec(f []string) string {
 		}
 		args = append(args, n)
 	}
-	need := map[string]int{"eblock": 0, "ewrite": 2, "ewritefail": 2, "edel": 1, "eread": 1}
+	need := map[string]int{"eblock": 0, "ewrite": 2, "ewritebig": 2, "ewritefail": 2, "edel": 1, "eread": 1}
 	if n, ok := need[f[0]]; !ok || n != len(args) {
 		return "bad-op"
 	}
@@ -422,6 +757,8 @@ func (e *eworld) exec(f []string) string {
 		return "ok"
 	case "ewrite":
 		return status(e.call("write", args[0], args[1]))
+	case "ewritebig":
+		return status(e.call("writebig", args[0], args[1]))
 	case "ewritefail":
 		return status(e.call("writefail", args[0], args[1]))
 	case "edel":
@@ -467,12 +804,28 @@ func impl(ops []string) []string {
 			case len(f) == 1 && f[0] == "ereset":
 				ew = newEWorld()
 				outs[i] = "ok"
-			case f[0] == "eblock" || f[0] == "ewrite" || f[0] == "ewritefail" || f[0] == "edel" || f[0] == "eread":
+			case f[0] == "eblock" || f[0] == "ewritebig" || f[0] == "ewrite" || f[0] == "ewritefail" || f[0] == "edel" || f[0] == "eread":
 				if ew == nil {
 					outs[i] = "bad"
 					return
 				}
 				outs[i] = ew.exec(f)
+			case f[0] == "scenario" && len(f) == 3:
+				seed, ok := num(f[2])
+				if !ok || f[1] != "partitions-oversize" {
+					outs[i] = "bad-op"
+					return
+				}
+				outs[i] = scenarioPartitionsOversize(int64(seed))
+			case f[0] == "cblock" || f[0] == "cretry":
+				if w == nil {
+					w = newWorld()
+				}
+				if f[0] == "cblock" {
+					outs[i] = w.cblock(f)
+				} else {
+					outs[i] = w.cretry(f)
+				}
 			case f[0] == "typecheck" && len(f) == 3:
 				seed, ok := num(f[2])
 				if !ok {
@@ -828,6 +1181,8 @@ func genEngine(r *rand.Rand, thorough bool) []string {
 	nk := 2 + r.Intn(4)
 	for len(ops) < n {
 		switch x := r.Intn(20); {
+		case x < 1:
+			ops = append(ops, fmt.Sprintf("ewritebig %d %d", r.Intn(nk), r.Intn(1000)))
 		case x < 6:
 			ops = append(ops, fmt.Sprintf("ewrite %d %d", r.Intn(nk), r.Intn(1000)))
 		case x < 10:
@@ -858,6 +1213,8 @@ func gen(r *rand.Rand, thorough bool, i int) []string {
 	next := 1
 	open, intx := false, false
 	curH := 0
+	var pendingH []int
+	pendingP := map[int]int{}
 	tip := 0
 	key := func() int { return r.Intn(nk) }
 	for len(ops) < n {
@@ -873,6 +1230,61 @@ func gen(r *rand.Rand, thorough bool, i int) []string {
 			}
 			if linear && r.Intn(5) == 0 {
 				ops = append(ops, fmt.Sprintf("query %d %d", tip, key()))
+				continue
+			}
+			if len(pendingH) > 0 && r.Intn(2) == 0 {
+				h := pendingH[len(pendingH)-1]
+				pendingH = pendingH[:len(pendingH)-1]
+				ops = append(ops, fmt.Sprintf("cretry %d", h))
+				committed = append(committed, h)
+				if pendingP[h] == tip {
+					tip = h
+				}
+				continue
+			}
+			if r.Intn(5) == 0 && (!linear || len(pendingH) == 0) {
+				p := tip
+				if !linear && r.Intn(3) == 0 {
+					p = committed[r.Intn(len(committed))]
+				}
+				h := next
+				next++
+				nt := 1 + r.Intn(4)
+				var txns []string
+				for a := 0; a < nt; a++ {
+					var prims []string
+					for b := 0; b < 1+r.Intn(3); b++ {
+						switch y := r.Intn(12); {
+						case y < 5:
+							prims = append(prims, fmt.Sprintf("i:%d:%d", key(), r.Intn(1000)))
+						case y < 6:
+							prims = append(prims, fmt.Sprintf("d:%d", key()))
+						case y < 9:
+							prims = append(prims, fmt.Sprintf("g:%d", key()))
+						case y < 10:
+							prims = append(prims, fmt.Sprintf("x:%d", key()))
+						case y < 11:
+							prims = append(prims, fmt.Sprintf("y:%d", key()))
+						default:
+							prims = append(prims, fmt.Sprintf("b:%d:%d", key(), r.Intn(1000)))
+						}
+					}
+					txns = append(txns, strings.Join(prims, ","))
+				}
+				stop := "-"
+				if r.Intn(2) == 0 {
+					stop = fmt.Sprintf("%s%d", []string{"c", "f"}[r.Intn(2)], r.Intn(nt+1))
+				}
+				ops = append(ops, fmt.Sprintf("cblock %d %d %s %s", h, p, stop, strings.Join(txns, ";")))
+				if stop != "-" && atoiOr(stop[1:], 0) < nt {
+					pendingH = append(pendingH, h)
+					pendingP[h] = p
+				} else {
+					committed = append(committed, h)
+					if p == tip {
+						tip = h
+					}
+				}
 				continue
 			}
 			p := tip
@@ -911,12 +1323,18 @@ func gen(r *rand.Rand, thorough bool, i int) []string {
 			}
 		default:
 			switch x := r.Intn(20); {
+			case x < 6 && r.Intn(4) == 0:
+				ops = append(ops, fmt.Sprintf("get%s %d", []string{"x", "y"}[r.Intn(2)], key()))
 			case x < 6:
 				ops = append(ops, fmt.Sprintf("get %d", key()))
 			case x < 8:
 				ops = append(ops, fmt.Sprintf("probe %d", key()))
 			case x < 13:
-				ops = append(ops, fmt.Sprintf("ins %d %d", key(), r.Intn(1000)))
+				if r.Intn(12) == 0 {
+					ops = append(ops, fmt.Sprintf("insbig %d %d", key(), r.Intn(1000)))
+				} else {
+					ops = append(ops, fmt.Sprintf("ins %d %d", key(), r.Intn(1000)))
+				}
 			case x < 15:
 				ops = append(ops, fmt.Sprintf("del %d", key()))
 			case x < 18:
@@ -936,8 +1354,11 @@ func gen(r *rand.Rand, thorough bool, i int) []string {
 		sort.Strings(names)
 		ops = append(ops, fmt.Sprintf("typecheck %s %d", names[r.Intn(len(names))], r.Intn(100000)))
 	}
+	if r.Intn(25) == 0 {
+		ops = append(ops, fmt.Sprintf("scenario partitions-oversize %d", r.Intn(100000)))
+	}
 	if r.Intn(30) == 0 {
-		bad := []string{"get", "ins 1", "begin 1", "frob 1", "query 1", "get x", "ins 1 99999999999", "typecheck nosuch.Type 1"}
+		bad := []string{"cblock 90 0 - i:1", "cblock 91 0 q1 i:1:1", "cretry 77", "insbig 1", "getx", "scenario nosuch 1", "get", "ins 1", "begin 1", "frob 1", "query 1", "get x", "ins 1 99999999999", "typecheck nosuch.Type 1"}
 		ops = append(ops, bad[r.Intn(len(bad))])
 	}
 	return ops
@@ -977,9 +1398,16 @@ func oracle(ops, outs []string) *corr.Violation {
 		intx      bool
 	}
 	var cur *ex
-	nonlinear := false // a block was begun on, or a read was made at, a block that already has a computed child
+	// wiped[k]: key k was looked up at a block that already had a computed child (the trigger of the recorded finding)
+	wiped := map[int]bool{}
+	refused := map[int]map[int]bool{} // values of inserts the trie refused, per key
+	type pend struct {
+		p      int
+		script string
+	}
+	pending := map[int]pend{}
 	discarded := map[int]map[int]bool{}
-	etrie, efailed := refTrie{}, map[int]map[int]bool{}
+	etrie, efailed, ebig := refTrie{}, map[int]map[int]bool{}, map[int]map[int]bool{}
 	show := func(t refTrie, k int) string {
 		if v, ok := t[k]; ok {
 			return strconv.Itoa(v)
@@ -1021,9 +1449,11 @@ func oracle(ops, outs []string) *corr.Violation {
 			}
 			if got != ref {
 				switch {
+				case refused[k][atoiOr(strings.TrimSuffix(got, "-oversized"), -1)] && !ancestorServes(readAt, k, got):
+					return mk(i, "refused-insert-value-served", fmt.Sprintf("cached read %s, trie %s: the value comes from an insert the trie refused", got, ref))
 				case discarded[k][atoiOr(got, -1)] && !ancestorServes(readAt, k, got):
 					return mk(i, "discarded-txn-value-served", fmt.Sprintf("cached read %s, trie %s: the value was only written by a discarded transaction", got, ref))
-				case nonlinear && ancestorServes(readAt, k, got):
+				case wiped[k] && ancestorServes(readAt, k, got):
 					return mk(i, "stale-ancestor-value-after-read-at-older-block", fmt.Sprintf("cached read %s, trie %s: the state cache served the value of an ancestor block although a nearer block changed the key (its entry was dropped when the key was read at a block that already had a computed child)", got, ref))
 				default:
 					return mk(i, "cached-read-differs-from-trie", fmt.Sprintf("cached read %s, trie %s", got, ref))
@@ -1033,14 +1463,11 @@ func oracle(ops, outs []string) *corr.Violation {
 		}
 		switch f[0] {
 		case "reset":
-			tries, parent, children, cur, nonlinear = map[int]refTrie{0: {}}, map[int]int{}, map[int]int{}, nil, false
-			discarded = map[int]map[int]bool{}
+			tries, parent, children, cur = map[int]refTrie{0: {}}, map[int]int{}, map[int]int{}, nil
+			discarded, wiped, refused, pending = map[int]map[int]bool{}, map[int]bool{}, map[int]map[int]bool{}, map[int]pend{}
 		case "begin":
 			if out != "ok" {
 				return mk(i, "unexpected-answer", "begin must succeed")
-			}
-			if children[arg(2)] > 0 {
-				nonlinear = true
 			}
 			cur = &ex{h: arg(1), p: arg(2), trie: cp(tries[arg(2)])}
 		case "tx":
@@ -1077,16 +1504,35 @@ func oracle(ops, outs []string) *corr.Violation {
 			cur = nil
 		case "babort":
 			cur = nil
-		case "get":
+		case "insbig":
+			if out != "toobig" {
+				return mk(i, "oversized-insert-answer", "the trie must refuse a value above its node size limit")
+			}
+			if refused[arg(1)] == nil {
+				refused[arg(1)] = map[int]bool{}
+			}
+			if v, ok := cur.txn[arg(1)]; !ok || v != arg(2) {
+				refused[arg(1)][arg(2)] = true
+			}
+		case "get", "getx", "gety":
+			if children[cur.p] > 0 {
+				wiped[arg(1)] = true
+			}
 			if v := checkRead(cur.p, cur.txn, arg(1)); v != nil {
 				// the read block is cur (not yet computed): ancestors start at its parent
 				return v
 			}
 		case "probe":
+			if children[cur.p] > 0 {
+				wiped[arg(1)] = true
+			}
 			if strings.HasPrefix(out, "hit ") {
-				got := strings.Fields(out)[1]
+				got := strings.Join(strings.Fields(out)[1:], "-")
 				if want := show(cur.txn, arg(1)); got != want {
-					if nonlinear && (ancestorServes(cur.p, arg(1), got) || show(tries[cur.p], arg(1)) == got) {
+					if refused[arg(1)][atoiOr(strings.TrimSuffix(got, "-oversized"), -1)] {
+						return mk(i, "refused-insert-value-served", fmt.Sprintf("cache hit %s, trie %s: the value comes from an insert the trie refused", got, want))
+					}
+					if wiped[arg(1)] && (ancestorServes(cur.p, arg(1), got) || show(tries[cur.p], arg(1)) == got) {
 						return mk(i, "stale-ancestor-value-after-read-at-older-block", fmt.Sprintf("cache hit %s, trie %s", got, want))
 					}
 					return mk(i, "cached-read-differs-from-trie", fmt.Sprintf("cache hit %s, trie %s", got, want))
@@ -1094,13 +1540,84 @@ func oracle(ops, outs []string) *corr.Violation {
 			}
 		case "query":
 			if children[arg(1)] > 0 {
-				nonlinear = true
+				wiped[arg(2)] = true
 			}
 			if v := checkRead(arg(1), tries[arg(1)], arg(2)); v != nil {
 				return v
 			}
+		case "cblock", "cretry":
+			var h, p int
+			var script string
+			stop := -1
+			want := "ok"
+			if f[0] == "cblock" {
+				h, p, script = arg(1), arg(2), f[4]
+				if f[3] != "-" {
+					stop, _ = strconv.Atoi(f[3][1:])
+					if stop < len(strings.Split(script, ";")) {
+						want = map[byte]string{'c': "cancelled", 'f': "failed"}[f[3][0]]
+					} else {
+						stop = -1
+					}
+				}
+			} else {
+				h = arg(1)
+				p, script = pending[h].p, pending[h].script
+			}
+			if out != want {
+				return mk(i, "compute-state-answer", "ComputeState must answer "+want)
+			}
+			t := cp(tries[p])
+			for ti, txn := range strings.Split(script, ";") {
+				if stop >= 0 && ti >= stop {
+					break
+				}
+				for _, prim := range strings.Split(txn, ",") {
+					x := strings.Split(prim, ":")
+					k, _ := strconv.Atoi(x[1])
+					switch x[0] {
+					case "i":
+						t[k], _ = strconv.Atoi(x[2])
+					case "d":
+						delete(t, k)
+					case "b":
+						v, _ := strconv.Atoi(x[2])
+						if refused[k] == nil {
+							refused[k] = map[int]bool{}
+						}
+						if ov, ok := t[k]; !ok || ov != v {
+							refused[k][v] = true
+						}
+					default:
+						if children[p] > 0 {
+							wiped[k] = true
+						}
+					}
+				}
+			}
+			if want == "ok" {
+				tries[h], parent[h] = t, p
+				children[p]++
+				delete(pending, h)
+			} else {
+				pending[h] = pend{p, script}
+			}
+		case "scenario":
+			if out != "ok" {
+				return mk(i, "scenario-"+f[1]+"-"+strings.Join(strings.Fields(strings.TrimPrefix(out, "fail "))[:1], ""), "a real Partitions whose Save the trie refused is read differently through the caches and from the trie: "+out)
+			}
+		case "ewritebig":
+			if out != "ok" {
+				return mk(i, "engine-write-failed", "a contract call that tolerates a refused insert is applied")
+			}
+			if efailed[arg(1)] == nil {
+				efailed[arg(1)] = map[int]bool{}
+			}
+			if v, ok := etrie[arg(1)]; !ok || v != arg(2) {
+				efailed[arg(1)][arg(2)] = true
+			}
 		case "ereset":
-			etrie, efailed = refTrie{}, map[int]map[int]bool{}
+			etrie, efailed, ebig = refTrie{}, map[int]map[int]bool{}, map[int]map[int]bool{}
 		case "eblock":
 		case "ewrite":
 			if out != "ok" {
@@ -1138,6 +1655,9 @@ func oracle(ops, outs []string) *corr.Violation {
 				return mk(i, "trie-read-differs-from-reference", fmt.Sprintf("the trie holds %s, the reference map %s", ref, want))
 			}
 			if got != ref {
+				if ebig[arg(1)][atoiOr(strings.TrimSuffix(got, "-oversized"), -1)] {
+					return mk(i, "refused-insert-value-served", fmt.Sprintf("a contract read %s through the caches, the trie holds %s: the value comes from an insert the trie refused", got, ref))
+				}
 				if efailed[arg(1)][atoiOr(got, -1)] {
 					return mk(i, "failed-txn-left-trace", fmt.Sprintf("a contract read %s through the caches, the trie holds %s: the value was written by a transaction that failed", got, ref))
 				}
@@ -1205,6 +1725,18 @@ func main() {
 		// through the real Chain.UpdateState: a failing contract call writes first; the next read must not see it
 		[]string{"reset", "ereset", "ewrite 1 10", "eread 1", "ewritefail 1 11", "eread 1", "eblock", "eread 1", "ewritefail 2 5", "eread 2",
 			"edel 1", "eread 1", "edel 1", "eblock", "eread 1", "ewrite 1 7", "eblock", "eblock", "eread 1"})
+	fixed = append(fixed,
+		// an insert the trie refuses (oversized value): same transaction, after a tolerated commit, next transaction, next block
+		[]string{"reset", "begin 1 0", "tx", "ins 1 10", "commit", "tx", "insbig 1 77", "get 1", "probe 1", "getx 1", "gety 1", "commit", "tx", "get 1", "probe 1", "commit",
+			"tx", "insbig 2 5", "get 2", "commit", "bcommit", "begin 2 1", "tx", "get 1", "get 2", "commit", "bcommit", "query 2 1", "query 2 2"},
+		// … through the real Chain.UpdateState with a contract that tolerates the error, and a real Partitions head over the limit
+		[]string{"reset", "ereset", "ewrite 1 10", "ewritebig 1 77", "eread 1", "eblock", "eread 1", "ewritebig 2 5", "eread 2", "eblock", "eread 2",
+			"scenario partitions-oversize 1", "scenario partitions-oversize 2"},
+		// a block whose ComputeState is interrupted after 1 of 2 transactions (cancelled, then failed), then computed again;
+		// reads at it and at its child, for the key written before and the key written after the interruption
+		[]string{"reset", "cblock 1 0 - i:1:10;i:2:20", "cblock 2 1 c1 g:1,i:1:11;g:2,i:2:21", "cretry 2", "query 2 1", "query 2 2",
+			"cblock 3 2 - g:1,g:2,i:3:1", "query 3 2", "begin 4 3", "tx", "get 2", "probe 2", "getx 2", "commit", "bcommit",
+			"cblock 5 4 f0 i:2:22", "cblock 6 4 f1 i:1:12;b:2:9,i:2:23;d:1", "cretry 6", "query 6 1", "query 6 2", "cretry 5", "query 5 2"})
 	corr.Main(corr.Prop{
 		ID: "C07", Model: "C07", Gen: gen, Impl: impl, Oracle: oracle, Serial: false,
 		Cases: func(th bool) int {
